@@ -10,7 +10,7 @@ def run(rep, tier, seed):
     rep.remainder = ('flush-on-write of every position-writing site, link maintenance of _set_ast/_set_field/'
                      '_make_fst_tree, the children worklist of _touchall, computed locations: bounded stand-in only')
     sec = native.run('b_edit', 'main', {'props': ['C02'], 'tier': tier, 'seed': seed, 'donor_n': 3, 'stride': 3,
-                                        'ops': ['self', 'remove', 'donor', 'slice', 'accessors'], 'norm': True})
+                                        'ops': ['self', 'remove', 'donor', 'slice', 'accessors', 'pars'], 'norm': True})
     sec['native_entry'] = ('b_edit', 'replay')
     rep.bounded(sec)
     sec = native.run('b_raw', 'main', {'props': ['C02'], 'tier': tier, 'seed': seed, 'ops': ['offset']})
